@@ -31,6 +31,7 @@ type filePlan struct {
 	Mode os.FileMode
 	Kind string // unformatted | formatted | invalid
 	Link bool   // the path is a symbolic link to the source file, which lives outside the formatted tree
+	LinkText string // non-empty: a RELATIVE symbolic link with this text (its target is another workload file)
 }
 
 type c26run struct {
@@ -114,6 +115,14 @@ func (c26) NewRun(plan *simrt.Source, job *harn.Job) harn.Run {
 		fp.Link = plan.Chance(120)
 		r.files = append(r.files, fp)
 	}
+	if plan.Chance(150) {
+		// a relative symbolic link to a sibling, and a file of the same name in the
+		// directory the command is started from
+		r.files = append(r.files,
+			filePlan{Rel: "twin.xgo", Kind: "formatted", Mode: 0600, Src: fmt.Sprintf(formattedXgo, 900+n)},
+			filePlan{Rel: "sub/twin.xgo", Kind: "unformatted", Mode: 0644, Src: fmt.Sprintf(xgoUnformatted[0], 800+n)},
+			filePlan{Rel: "sub/ltwin.xgo", Kind: "unformatted", Mode: 0644, Link: true, LinkText: "twin.xgo"})
+	}
 	switch plan.Biased(5, 550) {
 	case 0:
 	case 1:
@@ -196,6 +205,12 @@ func (r *c26run) populate() error {
 	for _, f := range r.files {
 		p := filepath.Join(r.dir, f.Rel)
 		real := p
+		if f.LinkText != "" {
+			if err := os.Symlink(f.LinkText, p); err != nil {
+				return err
+			}
+			continue
+		}
 		if f.Link {
 			os.MkdirAll(shared, 0755)
 			real = filepath.Join(shared, filepath.Base(f.Rel))
@@ -310,20 +325,33 @@ func (r *c26run) RunSeq(sched *simrt.Source, keepLog bool) *simrt.Result {
 		}
 	}
 	norm := func(p string) string {
-		p = filepath.ToSlash(strings.TrimPrefix(filepath.Clean(p), "./"))
+		p = filepath.Clean(p)
+		// absolute paths contain the scratch directory and the process id
+		if strings.HasPrefix(p, r.dir+"-shared") {
+			p = "<shared>" + strings.TrimPrefix(p, r.dir+"-shared")
+		} else if strings.HasPrefix(p, r.dir+"/") {
+			p = strings.TrimPrefix(p, r.dir+"/")
+		}
+		p = filepath.ToSlash(strings.TrimPrefix(p, "./"))
 		if paths[p] {
 			return p
 		}
 		if strings.Contains(filepath.Base(p), "*") {
 			return filepath.Dir(p) + "/<temp>"
 		}
-		for t := range paths {
+		// a temp file is named after a workload file: same directory first, in a
+		// fixed order (two workload files may share a base name)
+		elsewhere := false
+		for _, t := range tracked {
 			if strings.HasPrefix(filepath.Base(p), filepath.Base(t)) {
 				if filepath.Dir(p) == filepath.Dir(t) {
 					return filepath.Dir(p) + "/<temp>"
 				}
-				return "<elsewhere>/<temp>"
+				elsewhere = true
 			}
+		}
+		if elsewhere {
+			return "<elsewhere>/<temp>"
 		}
 		return p
 	}
